@@ -47,7 +47,7 @@ Ltac len_chain :=
 Lemma ap1_length m d (lhs : list R) n_rhs off r :
   apply_padding1 m d lhs n_rhs off = Ok r -> length r = length lhs.
 Proof.
-  unfold apply_padding1.
+  unfold apply_padding1. change size_guard_before_skip with false; cbn [andb].
   match goal with |- (if ?b then _ else _) = _ -> _ => destruct b; [intros E; now inversion E|] end.
   cbv zeta. match goal with |- (if ?b then _ else _) = _ -> _ => destruct b; [discriminate|] end.
   destruct (padding_slices_outer _ _ _) as [so_l so_r].
@@ -207,4 +207,31 @@ Proof.
   intros Hc Hg H1 Hx. destruct (at_most_one_len _ _ _ H1) as [L1 L2].
   rewrite <- (sep_rev_is_sep m' Forward outer ish osh offs); [apply sep_crop_extend; assumption | assumption |].
   apply sep_loop_length; auto.
+Qed.
+
+(* ---- the size guard of a mode is consulted only for axes that are extended ---- *)
+Lemma ap_axis_skipped m d shape W ax n_rhs off (lhs : list R) :
+  (nth ax shape 0 <= n_rhs)%nat -> ap_axis m d shape W ax n_rhs off lhs = Ok lhs.
+Proof.
+  intros Hle. unfold ap_axis. change size_guard_before_skip with false; cbn [andb].
+  unfold padding_skipped. destruct (Z.leb_spec (Z.of_nat (nth ax shape 0%nat)) (Z.of_nat n_rhs)); [reflexivity | lia].
+Qed.
+
+Lemma pad_legal_nonext m n n_out off : (n_out <= n)%nat -> pad_legal m n n_out off = true.
+Proof. intros H. unfold pad_legal. destruct (Nat.leb_spec n_out n); [reflexivity | lia]. Qed.
+
+Lemma nonextended_never_rejected m (c : R) (x : list R) n_out off :
+  (n_out <= length x)%nat -> offset_ok (length x) n_out off = true ->
+  (exists r, resize1 m Forward c true x n_out off = Ok r /\ length r = n_out) /\
+  (forall y : list R, length y = n_out ->
+     exists ay, resize1 m Adjoint 0 true y (length x) off = Ok ay /\ length ay = length x).
+Proof.
+  intros Hle Hoff. split.
+  - exists (resize_ref m c x n_out off).
+    assert (E : resize1 m Forward c true x n_out off = Ok (resize_ref m c x n_out off))
+      by (apply forward_is_ref; [exact Hoff | apply pad_legal_nonext; exact Hle]).
+    split; [exact E | eapply resize1_length; exact E].
+  - intros y Hy. subst n_out.
+    destruct (adjoint_all m x y off Hoff (pad_legal_nonext m _ _ off Hle)) as (fx & ay & _ & Ha & _ & Hl & _).
+    exists ay. split; assumption.
 Qed.
